@@ -1,4 +1,4 @@
 SPECIFICATION Spec
-CONSTANTS BudgetEquiv = 4  BudgetInverse = 4  BudgetDef = 4
+CONSTANTS BudgetEquiv = 4  BudgetInverse = 4  BudgetDef = 4  BudgetTheory = 8
 POSTCONDITION Accepted
 CHECK_DEADLOCK FALSE
